@@ -83,6 +83,74 @@ theorem proposed_block_attaches (s : NodePool.State) (hb : Header) (cb : Ledger.
   | none => rw [hq] at h1; cases h1
   | some v => rfl
 
+/-! ### (2) refused, conflicting and chained transactions -/
+
+open BytomModel.Lemmas.NodePoolInv (poolIds)
+
+/-- the proposer only includes pool transactions -/
+theorem included_are_pooled (s : NodePool.State) (id : Nat) (h : id ∈ s.propose.1) : id ∈ poolIds s := by
+  rw [propose_eq] at h
+  simp only at h
+  by_cases hin : id ∈ poolIds s
+  · exact hin
+  · have := (propStep_frame s (proposeHeight s) id _ ([], [], s.pool) hin).1.mp h
+    cases this
+
+theorem proposed_sub_pool (s : NodePool.State) : ∀ t ∈ proposedTxs s, t ∈ poolTxs s := by
+  rw [proposedTxs_eq]
+  exact selF_sub _ _ _ _
+
+/-- **C38 (2a).** A pool transaction the running view refuses (= one the loop does not include,
+    see `proposedTxs_eq`) is removed from the pool … -/
+theorem propose_removes_refused (s : NodePool.State) (hk : (poolIds s).Nodup) (id : Nat) (hin : id ∈ poolIds s)
+    (hq : (s.txById id).isSome) (hnot : id ∉ s.propose.1) : TxPool.amGet s.propose.2.pool.pool id = none := by
+  rw [propose_eq] at hnot ⊢
+  simp only at hnot ⊢
+  rcases propStep_partition s (proposeHeight s) id _ ([], [], s.pool) hk hin hq (by simp) with h | h
+  · exact absurd h.1 hnot
+  · exact h.2
+
+/-- … and an included one keeps its pool entry (it leaves the pool when its block is attached, C23) -/
+theorem included_stay_pooled (s : NodePool.State) (hk : (poolIds s).Nodup) (id : Nat)
+    (hq : (s.txById id).isSome) (hinc : id ∈ s.propose.1) :
+    TxPool.amGet s.propose.2.pool.pool id = TxPool.amGet s.pool.pool id := by
+  have hin := included_are_pooled s id hinc
+  rw [propose_eq] at hinc ⊢
+  simp only at hinc ⊢
+  rcases propStep_partition s (proposeHeight s) id _ ([], [], s.pool) hk hin hq (by simp) with h | h
+  · exact h.2
+  · exact absurd hinc h.1
+
+/-- **C38 (2b).** Conflicting pool transactions: of all pool transactions spending an output `o`
+    (whose id no pool transaction creates) at most one is included — the first one in arrival
+    order that the view accepts marks `o` spent and every later one is refused
+    (`Lemmas/Proposer.spent_blocks`). -/
+theorem conflict_one_included (s : NodePool.State) (o : Nat) (hno : ∀ t ∈ poolTxs s, o ∉ t.outs.map (·.id)) :
+    ((proposedTxs s).filter (fun t => decide (o ∈ t.ins))).length ≤ 1 := by
+  rw [proposedTxs_eq]
+  exact conflict_one_winner _ _ o _ _ hno
+
+/-- the first pool transaction is included iff the persisted view lets it spend all its inputs;
+    with `conflict_one_included`: of two conflicting transactions at the head of the pool exactly
+    the first is included -/
+theorem head_included_iff (s : NodePool.State) (t : Ledger.Tx) (rest : List Ledger.Tx) (hp : poolTxs s = t :: rest) :
+    t ∈ proposedTxs s ↔ (spendF s.base.params (proposeHeight s) t.ins (vget s.base.utxo)).2 = true ∨
+      t ∈ (selF s.base.params (proposeHeight s) rest (spendF s.base.params (proposeHeight s) t.ins (vget s.base.utxo)).1).1 := by
+  rw [proposedTxs_eq, hp, selF]
+  cases hok : (spendF s.base.params (proposeHeight s) t.ins (vget s.base.utxo)).2
+  · simp
+  · simp
+
+/-- **C38 (2c).** Chained pool transactions: an included transaction that spends an output the
+    persisted utxo set does not hold has the transaction creating that output included too
+    (before it: the output enters the running view only through `applyOutputUtxo` of an included
+    transaction). -/
+theorem child_needs_parent (s : NodePool.State) (o : Nat) (t2 : Ledger.Tx) (ho : o ∈ t2.ins)
+    (hdb : vget s.base.utxo o = none) (h2 : t2 ∈ proposedTxs s) :
+    ∃ t1 ∈ proposedTxs s, o ∈ t1.outs.map (·.id) := by
+  rw [proposedTxs_eq] at h2 ⊢
+  exact BytomModel.Lemmas.Proposer.child_needs_parent _ _ o t2 ho _ _ hdb h2
+
 /-! ### (3) the proposed block is accepted and becomes the best block -/
 
 theorem calcReorg_child (n : Node.State) (k : Nat) (nb ob : Header) (hne : (nb.id == ob.id) = false)
@@ -236,6 +304,12 @@ def exS : NodePool.State :=
 example : BytomModel.Lemmas.NodePoolInv.poolIds exS = [10, 12, 11, 13, 14] := by decide
 example : exS.propose.1 = [10, 11] := by decide
 example : BytomModel.Lemmas.NodePoolInv.poolIds exS.propose.2 = [10, 11] := by decide
+
+/-- (2) on the example: tC (conflict of tA), tD and tE are refused and removed; tB (child of tA)
+    is included with its parent; o100 is spent by exactly one included transaction -/
+example : (poolIds exS).Nodup ∧ (exS.txById 12).isSome ∧ 12 ∉ exS.propose.1 := by decide
+example : ∀ t ∈ poolTxs exS, (100 : Nat) ∉ t.outs.map (·.id) := by decide
+example : vget exS.base.utxo 200 = none ∧ exTB ∈ proposedTxs exS := by decide
 
 /-- all hypotheses of `proposed_block_valid` (and so of `propose_applies`,
     `proposed_block_attaches`) hold for `exS` and `exB1` -/
